@@ -34,6 +34,38 @@ LIVE = "sensor_level >= 0"
 N_KINDS = 20
 
 
+def _cint(rng, d):
+    if d <= 0 or rng.random() < 0.25:
+        return rng.choice([str(rng.randint(0, 20)), f"({-rng.randint(1, 20)})", str(rng.choice([0, 1, 2, 3, 7, 10, 100, 255])), 'len("abc")', "0x1F"])
+    a, b = _cint(rng, d - 1), _cint(rng, d - 1)
+    form = rng.choice(["{a} + {b}", "{a} - {b}", "{a} * {b}", "{a} // {b}", "{a} % {b}", "-({a})", "abs({a})", "min({a}, {b})", "max({a}, {b})", "int({a} / {b})",
+                       "({a} if {B} else {b})", "({B}) * {a}", "{a} & {b}", "{a} | {b}", "{a} ^ {b}", "{a} << 2", "{a} >> 1", "int({B})", "(({B}) + ({C}))", "({a} if {B} else {b})"])
+    return "(" + form.format(a=a, b=b, B=_cbool(rng, d - 1), C=_cbool(rng, d - 1)) + ")"
+
+
+def _cbool(rng, d):
+    a, b, c, e = (_cint(rng, max(0, d - 1)) for _ in range(4))
+    ops = ["<", "<=", ">", ">=", "==", "!="]
+    form = rng.choice(["{a} {o1} {b}", "{a} {o1} {b} {o2} {c}", "{a} {o1} {b} {o2} {c}", "{a} {o1} {b} {o2} {c} {o3} {e}", "not ({a} {o1} {b})",
+                       "({a} {o1} {b}) and ({b} {o2} {c})", "({a} {o1} {b}) or ({c} {o2} {e})", "not ({a} {o1} {b} {o2} {c})"])
+    return form.format(a=a, b=b, c=c, e=e, o1=rng.choice(ops), o2=rng.choice(ops), o3=rng.choice(ops))
+
+
+def const_expr(rng):
+    """A name-free integer expression over the operators a constant evaluator has to get right (floor division and modulo of negative
+    operands, chained comparisons whose links are not monotone, boolean operators, conditional expressions, bit operators, bools used
+    as numbers) and its value according to CPython, folded into 1..180."""
+    for _ in range(200):
+        e = f"abs({_cint(rng, rng.choice([2, 3, 3]))}) % 180 + 1"
+        try:
+            val = eval(e, {"__builtins__": {}}, {"abs": abs, "min": min, "max": max, "int": int, "len": len})
+        except (ZeroDivisionError, ValueError, OverflowError):
+            continue
+        if isinstance(val, int) and len(e) < 400:
+            return e, val
+    return "17 // 3 * 3 + 17 % 3", 17
+
+
 def site(rng, k):
     """A fold site: returns dict(kind, decl(var form), use_lit, use_var, var, mutate(value-change line), finding keys)."""
     kinds = ["sleep", "brightness", "blink", "len-str", "len-list", "flash-pattern", "glyph", "rgb", "fade", "ultra-model", "servo-bounds", "range-count", "expr-fold", "const-arith", "param-shadow", "led-rebind", "swap-fold", "aug-fold", "twin-literals", "remove-dup"]
@@ -144,11 +176,27 @@ def site(rng, k):
         exprs = ["1000 + (-250 // 3)", "250 // -4 + 100", "(-7) % 3 + 10", "7 % -3 + 10", "2 ** 5", "3 << 2", "-17 // 5 + 20", "int(7 / 2) + 1",
                  "abs(-9 // 2)", "max(3, -10 // 3) + 4", "min(100, 2 ** 7)", "100 - (-1) ** 3", "int(-3.5) + 10", "round(0) + 5" if False else "17 // 3 * 3 + 17 % 3",
                  "(10 - 25) // 4 + 30", "-(-9 // 2)", "255 & 0x0F | 16", "1 if -1 // 2 == -1 else 200"]
-        e = rng.choice(exprs)
-        val = eval(e)
-        site_fn = rng.choice(["sleep({})", "led.set_brightness({})", "led.blink({}, times=1)", "rgb.set_color({}, 1, 2)"])
-        lit = site_fn.replace("{}", str(val))
-        use = site_fn.replace("{}", e)
+        lits, uses = [], []
+        for j in range(8):
+            # (one expression from the fixed list, seven generated ones per case)
+            if j in (1, 2, 3):
+                # a condition that alone decides the value (chains of 3-4 small operands: every link matters)
+                ops = ["<", "<=", ">", ">=", "==", "!="]
+                n_ops = rng.choice([2, 2, 3])
+                chain = str(rng.randint(0, 6)) + "".join(f" {rng.choice(ops)} {rng.randint(0, 6)}" for _ in range(n_ops))
+                cond = rng.choice(["{c}", "not ({c})", "({c}) and (2 < 3)", "(1 > 2) or ({c})"]).format(c=chain)
+                x, y = rng.sample([5, 20, 60, 90, 120, 200], 2)
+                e = rng.choice(["{x} if {c} else {y}", "({c}) * {x} + {y}", "{y} + int({c}) * {x}"]).format(c=cond, x=x, y=y)
+                val = eval(e)
+            elif j > 0:
+                e, val = const_expr(rng)
+            else:
+                e = rng.choice(exprs)
+                val = eval(e)
+            site_fn = rng.choice(["sleep({})", "led.set_brightness({})", "led.blink({}, times=1)", "rgb.set_color({}, 1, 2)"])
+            lits.append(site_fn.replace("{}", str(val)))
+            uses.append(site_fn.replace("{}", e))
+        lit, use = "\n".join(lits), "\n".join(uses)
         return dict(kind=kind, var=v, decl=f"{v} = 0", lit=lit, use=use, expr=use, mut=None, mut_lit=None)
     a, b = rng.choice([(7, 3), (12, 5)])
     return dict(kind="expr-fold", var=v, decl=f"{v} = {a}", lit=f"mon.write({a} * 2 + 1)\nw{k} = {a} * 2 + 1\nmon.write(w{k})", use=f"mon.write({v} * 2 + 1)\nw{k} = {v} * 2 + 1\nmon.write(w{k})", expr=f"mon.write({a * 2 + 1})\nw{k} = {a * 2 + 1}\nmon.write(w{k})", mut=f"{v} = {b}", mut_lit=f"mon.write({b} * 2 + 1)\nw{k} = {b} * 2 + 1\nmon.write(w{k})")
